@@ -710,16 +710,26 @@ impl<'a, 'd> Gen<'a, 'd> {
             let t = self.sig_ty();
             params.push((self.new_param(t.clone(), &mut taken), t));
         }
-        let ret = match self.d.below(4) {
+        // a type parameter of the method's own: `fn m[U](self: Name[T], p: T, q: U) -> (T, U)`
+        let own = if n < 3 && self.d.chance(90) { 1 } else { 0 };
+        if own > 0 {
+            let t = Ty::Param(n);
+            params.push((self.fresh_named("p", t.clone()), t));
+            self.cur_tparams = n + own;
+            self.label("impl:method-own-generics");
+        }
+        let ret = match self.d.below(if own > 0 { 6 } else { 4 }) {
             0 => Ty::Param(self.d.below(n as usize) as u32),
             1 => self_ty.clone(),
             2 => Ty::Tuple(vec![Ty::Param(self.d.below(n as usize) as u32), Ty::i32()]),
-            _ => self.sig_ty(),
+            3 => self.sig_ty(),
+            4 => Ty::Param(n),
+            _ => Ty::Tuple(vec![Ty::Param(self.d.below(n as usize) as u32), Ty::Param(n)]),
         };
         let body = self.block(&ret, 3);
         self.scope.clear();
         self.cur_tparams = 0;
-        self.p.fns[idx] = FnDef { name, tparams: n, params, ret, body, owner: Some(impl_idx), bounds: vec![] };
+        self.p.fns[idx] = FnDef { name, tparams: n + own, params, ret, body, owner: Some(impl_idx), bounds: vec![] };
         idx
     }
 
